@@ -1,35 +1,759 @@
+// C09 harness: the gateway side of the global limiter.
+//
+// The real flowcontrols.NewUpstreamLimiter (with the real clientsets.clientSets struct, goroutine-less, as its
+// ClientSets) is driven through operation lists: schema syncs, heartbeats (real setLeaderStatus on a shifted clock),
+// the two halves of reconcile() (real updateGlobalCuntFlowControls / updateFlowControls with generated answers),
+// acquire results (real remoteWrapper.SetLimit) and meter readings. After every operation the harness reads back which
+// limiter GetOrDefault(name) hands out, its String(), a capacity probe by TryAcquire, and the wrapper's fields.
+// The same list goes to the Lean model (diff) and the implementation's observations go to the Lean judge.
 package main
 
 import (
 	"context"
+	"encoding/json"
+	"flag"
 	"fmt"
+	"io"
+	"os"
+	"path/filepath"
+	"regexp"
+	"sort"
+	"strconv"
+	"strings"
 	"time"
 
+	"k8s.io/klog"
+
 	proxyv1alpha1 "github.com/kubewharf/kubegateway/pkg/apis/proxy/v1alpha1"
+	"github.com/kubewharf/kubegateway/pkg/flowcontrols"
+	"github.com/kubewharf/kubegateway/pkg/flowcontrols/flowcontrol"
 	"github.com/kubewharf/kubegateway/pkg/flowcontrols/remote"
+	"github.com/kubewharf/kubegateway/pkg/ratelimiter/clientsets"
+	limitutil "github.com/kubewharf/kubegateway/pkg/ratelimiter/util"
+
+	"verifharness/rig"
 )
 
-func main() {
+const (
+	cluster = "cluster-a"
+	fcName  = "fc"
+)
+
+// ---------------------------------------------------------------------------------------------------------------
+// case format (shared with lean/KG/Driver/C09.lean)
+
+type Schema struct {
+	Strategy string    `json:"strategy"`
+	Exempt   bool      `json:"exempt"`
+	MI       *int64    `json:"mi"`
+	TB       *[2]int64 `json:"tb"`
+	GMI      *int64    `json:"gmi"`
+	GTB      *[2]int64 `json:"gtb"`
+}
+
+type Item struct {
+	Strategy string    `json:"strategy"`
+	MI       *int64    `json:"mi"`
+	TB       *[2]int64 `json:"tb"`
+}
+
+type Op struct {
+	Op string `json:"op"`
+	// schema
+	Schema *Schema `json:"schema,omitempty"`
+	// shards
+	N int `json:"n,omitempty"`
+	// hb
+	OK    bool  `json:"ok,omitempty"`
+	Now   int64 `json:"now,omitempty"`
+	Other bool  `json:"other,omitempty"`
+	// answer
+	Named bool  `json:"named,omitempty"`
+	Item  *Item `json:"item,omitempty"`
+	// meter
+	Max     int64 `json:"max,omitempty"`
+	RateNum int64 `json:"rateNum,omitempty"`
+	RateDen int64 `json:"rateDen,omitempty"`
+	// setlimit
+	HasReq bool   `json:"hasReq,omitempty"`
+	Tokens int64  `json:"tokens,omitempty"`
+	Accept bool   `json:"accept,omitempty"`
+	Limit  int64  `json:"limit,omitempty"`
+	Err    string `json:"err,omitempty"`
+	RT     int64  `json:"rt,omitempty"`
+}
+
+// the driver wants every field of an op present
+func (o Op) MarshalJSON() ([]byte, error) {
+	m := map[string]interface{}{"op": o.Op}
+	switch o.Op {
+	case "schema":
+		m["schema"] = o.Schema
+	case "shards":
+		m["n"] = o.N
+	case "hb":
+		m["ok"], m["now"], m["other"] = o.OK, o.Now, o.Other
+	case "answer":
+		m["named"], m["item"] = o.Named, o.Item
+	case "meter":
+		m["max"], m["rateNum"], m["rateDen"] = o.Max, o.RateNum, o.RateDen
+	case "setlimit":
+		m["hasReq"], m["tokens"], m["accept"], m["limit"], m["err"], m["rt"] = o.HasReq, o.Tokens, o.Accept, o.Limit, o.Err, o.RT
+	}
+	return json.Marshal(m)
+}
+
+type Cfg struct {
+	RateLimiter string `json:"rateLimiter"`
+	HasCS       bool   `json:"hasCS"`
+}
+
+type Case struct {
+	Cfg    Cfg  `json:"cfg"`
+	Shards int  `json:"shards"` // the shard count the limiter server reports when it is known (op "shards" n>0)
+	Probe  int  `json:"probe"`  // capacity probes stop after this many admissions
+	Ops    []Op `json:"ops"`
+	// KindChange marks cases whose schema type changes: only the correspondence is checked on them
+	KindChange bool `json:"kindChange,omitempty"`
+}
+
+type Lim struct {
+	Kind  string `json:"kind"`
+	Size  *int64 `json:"size,omitempty"`
+	QPS   *int64 `json:"qps,omitempty"`
+	Burst *int64 `json:"burst,omitempty"`
+}
+
+type Obs struct {
+	Choice        string `json:"choice"`
+	Lim           *Lim   `json:"lim"`
+	RLim          *Lim   `json:"rlim"`
+	WKind         int    `json:"wkind"`
+	Unavail       bool   `json:"unavail"`
+	WMax          int64  `json:"wmax"`
+	WReserve      int64  `json:"wreserve"`
+	LastAcq       int64  `json:"lastAcq"`
+	Acquired      int64  `json:"acquired"`
+	OverLimited   int64  `json:"overLimited"`
+	Tokens        int64  `json:"tokens"`
+	TokenBatch    int64  `json:"tokenBatch"`
+	TokenInflight int64  `json:"tokenInflight"`
+	WQPS          int64  `json:"wqps"`
+	WBurst        int64  `json:"wburst"`
+	Ready         bool   `json:"ready"`
+	Ret           bool   `json:"ret"`
+	RemoteConfig  *Item  `json:"remoteConfig"`
+}
+
+// implementation-only readings
+type Extra struct {
+	Probe     int    `json:"probe"`     // admissions by TryAcquire from empty through the limiter handed out (-1: not probed)
+	ProbeVia  string `json:"probeVia"`  // "handed" | "inner"
+	RProbe    int    `json:"rprobe"`    // the same on the remote limiter when it is not the one handed out (-1: not probed)
+	ZeroQPS   int    `json:"zeroQps"`   // admissions of 300 back-to-back TryAcquire on a token bucket with qps 0 (-1: n/a)
+	Str       string `json:"str"`       // String() of the limiter handed out
+	WaitInfl  int64  `json:"waitInflight"`
+	CurrToken int64  `json:"currentToken"`
+}
+
+// ---------------------------------------------------------------------------------------------------------------
+// conversions
+
+func i32(v int64) int32 { return int32(v) }
+
+func (s *Schema) api() proxyv1alpha1.FlowControlSchema {
+	r := proxyv1alpha1.FlowControlSchema{Name: fcName, Strategy: proxyv1alpha1.LimitStrategy(s.Strategy)}
+	if s.Exempt {
+		r.Exempt = &proxyv1alpha1.ExemptFlowControlSchema{}
+	}
+	if s.MI != nil {
+		r.MaxRequestsInflight = &proxyv1alpha1.MaxRequestsInflightFlowControlSchema{Max: i32(*s.MI)}
+	}
+	if s.GMI != nil {
+		r.GlobalMaxRequestsInflight = &proxyv1alpha1.MaxRequestsInflightFlowControlSchema{Max: i32(*s.GMI)}
+	}
+	if s.TB != nil {
+		r.TokenBucket = &proxyv1alpha1.TokenBucketFlowControlSchema{QPS: i32(s.TB[0]), Burst: i32(s.TB[1])}
+	}
+	if s.GTB != nil {
+		r.GlobalTokenBucket = &proxyv1alpha1.TokenBucketFlowControlSchema{QPS: i32(s.GTB[0]), Burst: i32(s.GTB[1])}
+	}
+	return r
+}
+
+func (it *Item) api(name string) proxyv1alpha1.RateLimitItemConfiguration {
+	r := proxyv1alpha1.RateLimitItemConfiguration{Name: name, Strategy: proxyv1alpha1.LimitStrategy(it.Strategy)}
+	if it.MI != nil {
+		r.MaxRequestsInflight = &proxyv1alpha1.MaxRequestsInflightFlowControlSchema{Max: i32(*it.MI)}
+	}
+	if it.TB != nil {
+		r.TokenBucket = &proxyv1alpha1.TokenBucketFlowControlSchema{QPS: i32(it.TB[0]), Burst: i32(it.TB[1])}
+	}
+	return r
+}
+
+func canonStrategy(s proxyv1alpha1.LimitStrategy) string {
+	switch s {
+	case "", proxyv1alpha1.LocalLimit, proxyv1alpha1.GlobalAllocateLimit, proxyv1alpha1.GlobalCountLimit:
+		return string(s)
+	}
+	return "other"
+}
+
+func itemOf(c proxyv1alpha1.RateLimitItemConfiguration) *Item {
+	it := &Item{Strategy: canonStrategy(c.Strategy)}
+	if c.MaxRequestsInflight != nil {
+		v := int64(c.MaxRequestsInflight.Max)
+		it.MI = &v
+	}
+	if c.TokenBucket != nil {
+		it.TB = &[2]int64{int64(c.TokenBucket.QPS), int64(c.TokenBucket.Burst)}
+	}
+	return it
+}
+
+var reStr = regexp.MustCompile(`^name=([^,]*),type=(\w+),(?:size=(\d+)|qps=(\d+),burst=(\d+))$`)
+
+func parseLim(s string) *Lim {
+	m := reStr.FindStringSubmatch(s)
+	if m == nil {
+		return &Lim{Kind: "unparsed:" + s}
+	}
+	l := &Lim{Kind: m[2]}
+	if m[3] != "" {
+		v, _ := strconv.ParseInt(m[3], 10, 64)
+		l.Size = &v
+	} else {
+		q, _ := strconv.ParseInt(m[4], 10, 64)
+		b, _ := strconv.ParseInt(m[5], 10, 64)
+		l.QPS, l.Burst = &q, &b
+	}
+	return l
+}
+
+// ---------------------------------------------------------------------------------------------------------------
+// running a case on the real code
+
+type runResult struct {
+	Obs   []Obs   `json:"obs"`
+	Extra []Extra `json:"extra"`
+	Panic string  `json:"panic,omitempty"`
+}
+
+type acquirer interface {
+	TryAcquire() bool
+	Release()
+}
+
+func probe(fc acquirer, limit int) int {
+	n := 0
+	for n < limit && fc.TryAcquire() {
+		n++
+	}
+	for i := 0; i < n; i++ {
+		fc.Release()
+	}
+	return n
+}
+
+// normalize drops what cannot happen: without a client set nothing reconciles and no acquire result arrives
+// (reconcile.EnsureReconcile refuses to start; the counter worker would dereference the nil client set).
+func normalize(cs Case) Case {
+	if cs.Shards <= 0 {
+		cs.Shards = 1
+	}
+	if cs.Probe <= 0 {
+		cs.Probe = 64
+	}
+	if !cs.Cfg.HasCS {
+		var ops []Op
+		for _, o := range cs.Ops {
+			if o.Op == "reconcile" || o.Op == "answer" || o.Op == "setlimit" {
+				continue
+			}
+			ops = append(ops, o)
+		}
+		cs.Ops = ops
+	}
+	if cs.Ops == nil {
+		cs.Ops = []Op{}
+	}
+	return cs
+}
+
+// wrapperProbeBudget bounds, per process, the probes that go through the max-in-flight count wrapper's waiting path
+// (each waiting TryAcquire leaks one goroutine inside waitAcquire, in the real code too).
+var wrapperProbeBudget = 40000
+
+func runImpl(c *rig.Ctx, cs Case, rnd func(int) int) (res runResult) {
 	ctx, cancel := context.WithCancel(context.Background())
 	defer cancel()
-	g := remote.NewGlobalCounterProvider(ctx, "c", nil, "id")
-	cache := remote.NewFlowControlCache("c", "fc", "id", g)
-	cache.LocalFlowControl().Sync(proxyv1alpha1.FlowControlSchema{Name: "fc", Strategy: proxyv1alpha1.GlobalAllocateLimit,
-		FlowControlSchemaConfiguration: proxyv1alpha1.FlowControlSchemaConfiguration{
-			TokenBucket:       &proxyv1alpha1.TokenBucketFlowControlSchema{QPS: 10, Burst: 20},
-			GlobalTokenBucket: &proxyv1alpha1.TokenBucketFlowControlSchema{QPS: 100, Burst: 200}}})
-	cache.EnableRemoteFlowControl()
-	for _, a := range [][2]int32{{50, 100}, {0, 100}, {-5, 3}, {0, 1}, {0, 0}, {1, 1}} {
-		cache.FlowControl().Sync(proxyv1alpha1.RateLimitItemConfiguration{Name: "fc", Strategy: proxyv1alpha1.GlobalAllocateLimit,
-			LimitItemDetail: proxyv1alpha1.LimitItemDetail{TokenBucket: &proxyv1alpha1.TokenBucketFlowControlSchema{QPS: a[0], Burst: a[1]}}})
-		fc := cache.FlowControl()
-		t0 := time.Now()
+	bare := clientsets.VerifNewBare("gw-verif-1")
+	var csArg clientsets.ClientSets
+	if cs.Cfg.HasCS {
+		csArg = bare
+	}
+	shard := limitutil.GetShardID(cluster, cs.Shards)
+	var ul flowcontrols.UpstreamLimiter
+	var cache remote.FlowControlCache
+	frozen := false
+	pendingMax, pendingRate := int32(0), float64(0)
+	lastRet := false
+	var lastHB int64
+	hbSeen := false
+
+	msg, panicked := rig.Recover(func() {
+		ul = flowcontrols.NewUpstreamLimiter(ctx, cluster, cs.Cfg.RateLimiter, csArg)
+		for _, op := range cs.Ops {
+			switch op.Op {
+			case "schema":
+				ul.Sync(proxyv1alpha1.FlowControl{Schemas: []proxyv1alpha1.FlowControlSchema{op.Schema.api()}})
+				if cache == nil {
+					cache = ul.AllFlowControls()[fcName]
+				}
+				if cache != nil && !frozen {
+					remote.VerifFreezeMeter(cache)
+					remote.VerifSetMeter(cache, pendingMax, pendingRate)
+					frozen = true
+				}
+			case "shards":
+				clientsets.VerifSetShardCount(bare, op.N)
+			case "hb":
+				if op.Other {
+					clientsets.VerifHeartbeat(bare, shard+1, op.OK, 0)
+				} else {
+					el := time.Duration(0)
+					if hbSeen {
+						el = time.Duration(op.Now - lastHB)
+					}
+					hbSeen, lastHB = true, op.Now
+					clientsets.VerifHeartbeat(bare, shard, op.OK, el)
+				}
+			case "reconcile":
+				remote.VerifUpdateGlobalCount(cluster, ul.AllFlowControls())
+			case "answer":
+				name := fcName
+				if !op.Named {
+					name = "some-other-schema"
+				}
+				remote.VerifUpdateFlowControls(cluster, ul.AllFlowControls(), []proxyv1alpha1.RateLimitItemConfiguration{op.Item.api(name)})
+			case "meter":
+				pendingMax, pendingRate = i32(op.Max), float64(op.RateNum)/float64(op.RateDen)
+				if cache != nil {
+					remote.VerifSetMeter(cache, pendingMax, pendingRate)
+				}
+			case "setlimit":
+				if cache != nil {
+					if rf := cache.FlowControl(); rf != nil {
+						lastRet = rf.SetLimit(remote.VerifAcquireResult(fcName, op.HasReq, i32(op.Tokens), op.Accept, i32(op.Limit), op.Err, op.RT))
+					}
+				}
+			default:
+				panic("harness: unknown op " + op.Op)
+			}
+			o, x := observe(cs, ul, cache, bare, lastRet, rnd)
+			res.Obs = append(res.Obs, o)
+			res.Extra = append(res.Extra, x)
+		}
+	})
+	if panicked {
+		res.Panic = msg
+	}
+	if res.Obs == nil {
+		res.Obs, res.Extra = []Obs{}, []Extra{}
+	}
+	return res
+}
+
+func observe(cs Case, ul flowcontrols.UpstreamLimiter, cache remote.FlowControlCache, bare clientsets.ClientSets, lastRet bool, rnd func(int) int) (Obs, Extra) {
+	o := Obs{Ret: lastRet, Ready: bare.IsReady(cluster)}
+	x := Extra{Probe: -1, RProbe: -1, ZeroQPS: -1}
+	fc := ul.GetOrDefault(fcName)
+	var rf flowcontrol.FlowControl
+	if cache != nil {
+		if r := cache.FlowControl(); r != nil {
+			rf = r
+		}
+	}
+	switch {
+	case fc == flowcontrol.DefaultFlowControl:
+		o.Choice = "default"
+	case cache != nil && rf != nil && fc == rf:
+		o.Choice = "remote"
+	case cache != nil && fc == cache.LocalFlowControl().Current():
+		o.Choice = "local"
+	default:
+		o.Choice = "unknown"
+	}
+	var d remote.VerifDump
+	if cache != nil {
+		d = remote.VerifDumpRemote(cache)
+	}
+	if d.HasLimiter {
+		o.RLim = parseLim(d.Str)
+		o.WKind = d.Wrapper
+		o.Unavail = d.Unavailable
+		o.WMax, o.WReserve, o.LastAcq = int64(d.Max), int64(d.Reserve), d.LastAcquire
+		o.Acquired, o.OverLimited = int64(d.Acquired), int64(d.OverLimited)
+		o.Tokens, o.TokenBatch, o.TokenInflight = int64(d.Tokens), int64(d.TokenBatch), int64(d.TokenInflight)
+		o.WQPS, o.WBurst = int64(d.QPS), int64(d.Burst)
+		x.WaitInfl = int64(d.WaitInflight)
+	}
+	if d.HasRemote && d.RemoteConfig.Name != "" {
+		o.RemoteConfig = itemOf(d.RemoteConfig)
+	}
+	if o.Choice != "default" {
+		if o.Choice == "remote" && !d.HasLimiter {
+			// a remote wrapper that was never filled: String() would dereference nil
+			o.Lim = nil
+		} else {
+			x.Str = fc.String()
+			o.Lim = parseLim(x.Str)
+		}
+	}
+	if rf != nil && d.HasLimiter {
+		x.CurrToken = int64(cache.FlowControl().CurrentToken())
+	}
+
+	// capacity probes (max-in-flight only: a token bucket's admissions depend on the wall clock)
+	probeRemote := func(handed bool) int {
+		// cheap iff the count wrapper never takes its waiting path: degraded, over the limit, or not a count wrapper
+		cheap := d.Wrapper != 2 || d.Unavailable || d.OverLimited > 0
+		size := int64(-1)
+		if o.RLim != nil && o.RLim.Size != nil {
+			size = *o.RLim.Size
+		}
+		if !cheap && d.Wrapper == 2 && int64(d.Acquired) >= size && size == int64(d.Max) {
+			cheap = true
+		}
+		through := cheap
+		if !cheap && size >= 0 && size <= 8 && wrapperProbeBudget > 0 && rnd(4) == 0 {
+			through = true
+			wrapperProbeBudget -= int(size) + 1
+		}
+		if through {
+			if handed {
+				x.ProbeVia = "handed"
+			}
+			return probe(rf, cs.Probe)
+		}
+		if handed {
+			x.ProbeVia = "inner"
+		}
+		if in := remote.VerifInner(cache); in != nil {
+			return probe(in, cs.Probe)
+		}
+		return -1
+	}
+	if o.Lim != nil && o.Lim.Kind == "MaxRequestsInflight" {
+		if o.Choice == "remote" {
+			x.Probe = probeRemote(true)
+		} else {
+			x.ProbeVia = "handed"
+			x.Probe = probe(fc, cs.Probe)
+		}
+	}
+	if o.Choice != "remote" && o.RLim != nil && o.RLim.Kind == "MaxRequestsInflight" && rnd(3) == 0 {
+		x.RProbe = probeRemote(false)
+	}
+	// a token bucket whose qps is 0 must not admit more than its burst
+	if o.Lim != nil && o.Lim.Kind == "TokenBucket" && o.Lim.QPS != nil && *o.Lim.QPS == 0 {
 		n := 0
-		for i := 0; i < 100000; i++ {
+		for i := 0; i < 300; i++ {
 			if fc.TryAcquire() {
 				n++
 			}
 		}
-		fmt.Printf("answer qps=%d burst=%d -> %s admitted %d of 100000 in %v\n", a[0], a[1], fc.String(), n, time.Since(t0))
+		x.ZeroQPS = n
+	} else if o.RLim != nil && o.RLim.Kind == "TokenBucket" && o.RLim.QPS != nil && *o.RLim.QPS == 0 && rf != nil {
+		n := 0
+		for i := 0; i < 300; i++ {
+			if rf.TryAcquire() {
+				n++
+			}
+		}
+		x.ZeroQPS = n
 	}
+	return o, x
+}
+
+// ---------------------------------------------------------------------------------------------------------------
+// one case: real code, model, diff, judge
+
+type modelReply struct {
+	Model        []Obs      `json:"model"`
+	Panic        *string    `json:"panic"`
+	VerdictModel [][]string `json:"verdictModel"`
+	VerdictImpl  [][]string `json:"verdictImpl"`
+}
+
+type failure struct {
+	kind, class, what string
+	step              int
+	impl, model       interface{}
+}
+
+// evaluate returns the first failure of the case (nil: fine) and some facts for the statistics.
+func evaluate(c *rig.Ctx, cs Case, rnd func(int) int) (*failure, runResult) {
+	cs = normalize(cs)
+	var res runResult
+	for attempt := 0; ; attempt++ {
+		t0 := time.Now()
+		res = runImpl(c, cs, rnd)
+		// the count wrappers' resetCheck goroutine injects a "timeout" reply after > 4 s without an answer:
+		// a case that took that long (machine stalled) is run again rather than judged
+		if time.Since(t0) < 2500*time.Millisecond || attempt >= 3 {
+			break
+		}
+	}
+	var m modelReply
+	if err := c.Model("C09.case", map[string]interface{}{"cfg": cs.Cfg, "ops": cs.Ops, "obs": res.Obs}, &m); err != nil {
+		return &failure{kind: "diff", class: "c09.model-error", what: "model error: " + err.Error()}, res
+	}
+	// judge first: the property on the implementation's own output
+	if !cs.KindChange {
+		for i, v := range m.VerdictImpl {
+			if len(v) > 0 {
+				return &failure{kind: "judge", class: v[0], step: i, impl: res.Obs[i],
+					what: fmt.Sprintf("after op %d (%s): %s; implementation observed %s", i, rig.Canon(cs.Ops[i]), strings.Join(v, ","), rig.Canon(res.Obs[i]))}, res
+			}
+		}
+	}
+	for i, x := range res.Extra {
+		o := res.Obs[i]
+		if x.Probe >= 0 && o.Lim != nil && o.Lim.Size != nil {
+			want := int(min64(*o.Lim.Size, int64(cs.Probe)))
+			if x.Probe > want {
+				return &failure{kind: "judge", class: "c09.admits-more-than-size", step: i, impl: x,
+					what: fmt.Sprintf("after op %d the limiter handed out says %q but admitted %d concurrent requests (probe via %s)", i, x.Str, x.Probe, x.ProbeVia)}, res
+			}
+			if x.Probe < want {
+				return &failure{kind: "diff", class: "c09.probe-below-size", step: i, impl: x,
+					what: fmt.Sprintf("after op %d the limiter handed out says %q but admitted only %d concurrent requests (probe via %s)", i, x.Str, x.Probe, x.ProbeVia)}, res
+			}
+		}
+		if x.RProbe >= 0 && o.RLim != nil && o.RLim.Size != nil {
+			want := int(min64(*o.RLim.Size, int64(cs.Probe)))
+			if x.RProbe > want {
+				return &failure{kind: "judge", class: "c09.admits-more-than-size", step: i, impl: x,
+					what: fmt.Sprintf("after op %d the remote limiter says size %d but admitted %d concurrent requests", i, *o.RLim.Size, x.RProbe)}, res
+			}
+		}
+		if x.ZeroQPS >= 0 {
+			b := int64(0)
+			if o.Lim != nil && o.Lim.Burst != nil && o.Lim.QPS != nil && *o.Lim.QPS == 0 {
+				b = *o.Lim.Burst
+			} else if o.RLim != nil && o.RLim.Burst != nil {
+				b = *o.RLim.Burst
+			}
+			if int64(x.ZeroQPS) > b {
+				return &failure{kind: "judge", class: "c09.tb-zero-qps-unlimited", step: i, impl: x,
+					what: fmt.Sprintf("after op %d (%s) a token bucket with qps 0, burst %d admitted %d of 300 back-to-back requests", i, rig.Canon(cs.Ops[i]), b, x.ZeroQPS)}, res
+			}
+		}
+	}
+	// correspondence
+	mp := ""
+	if m.Panic != nil {
+		mp = *m.Panic
+	}
+	if (res.Panic != "") != (mp != "") || len(res.Obs) != len(m.Model) {
+		return &failure{kind: "diff", class: "c09.panic", step: len(res.Obs), impl: res.Panic, model: mp,
+			what: fmt.Sprintf("implementation ran %d ops (panic %q), model ran %d ops (panic %q)", len(res.Obs), res.Panic, len(m.Model), mp)}, res
+	}
+	for i := range res.Obs {
+		if a, b := rig.Canon(res.Obs[i]), rig.Canon(m.Model[i]); a != b {
+			return &failure{kind: "diff", class: "c09.obs", step: i, impl: res.Obs[i], model: m.Model[i],
+				what: fmt.Sprintf("after op %d (%s): implementation %s, model %s", i, rig.Canon(cs.Ops[i]), a, b)}, res
+		}
+	}
+	// the judge on the model's own observations must be silent too (the theorem, sampled)
+	if !cs.KindChange {
+		for i, v := range m.VerdictModel {
+			if len(v) > 0 {
+				return &failure{kind: "diff", class: "c09.model-judge", step: i, model: m.Model[i],
+					what: fmt.Sprintf("the judge rejects the MODEL's observation after op %d: %s", i, strings.Join(v, ","))}, res
+			}
+		}
+	}
+	return nil, res
+}
+
+func min64(a, b int64) int64 {
+	if a < b {
+		return a
+	}
+	return b
+}
+
+func report(c *rig.Ctx, cs Case, f *failure) {
+	c.Fail(rig.Failure{Kind: f.kind, Class: f.class, What: f.what, Case: cs, Impl: f.impl, Model: f.model})
+}
+
+func shrink(c *rig.Ctx, cs Case, f *failure) (Case, *failure) {
+	det := func(int) int { return 0 }
+	same := func(x Case) *failure {
+		g, _ := evaluate(c, x, det)
+		if g != nil && g.kind == f.kind && g.class == f.class {
+			return g
+		}
+		return nil
+	}
+	if same(cs) == nil {
+		return cs, f // not reproducible with the deterministic probe policy: keep as is
+	}
+	cs.Ops = rig.ShrinkList(cs.Ops, func(l []Op) bool { x := cs; x.Ops = l; return same(x) != nil })
+	if g := same(cs); g != nil {
+		f = g
+	}
+	return cs, f
+}
+
+func runOne(c *rig.Ctx, cs Case, record bool) bool {
+	f, _ := evaluate(c, cs, c.Rng.Intn)
+	if f == nil {
+		return true
+	}
+	if record {
+		small, g := shrink(c, cs, f)
+		report(c, small, g)
+	}
+	return false
+}
+
+// ---------------------------------------------------------------------------------------------------------------
+
+func silenceKlog() {
+	fs := flag.NewFlagSet("klog", flag.ContinueOnError)
+	klog.InitFlags(fs)
+	fs.Set("logtostderr", "false")
+	fs.Set("alsologtostderr", "false")
+	fs.Set("stderrthreshold", "FATAL")
+	klog.SetOutput(io.Discard)
+}
+
+func main() {
+	silenceKlog()
+	for _, e := range []string{"GLOBAL_MAXINFLIGHT_BURST_PERCENT", "GLOBAL_TOKENBUCKET_BURST_PERCENT"} {
+		if os.Getenv(e) != "" {
+			fmt.Fprintln(os.Stderr, "c09: "+e+" is set: the burst percents would differ from the source values the theorems are checked against")
+			os.Exit(2)
+		}
+	}
+	rig.Main("C09", func(c *rig.Ctx) {
+		c.SetRule("a case = (rateLimiter, client set present, shard count) + 8-22 operations on the real upstreamLimiter: schema syncs (valid schemas, 0<=local<=global, limits and strategy change, type fixed), heartbeats on a shifted clock, reconcile halves with answered items (limits from {-2^31,-300,-1,0,1,reserve,local,global-1,global,global+1,2^31-1} and random, all item types and strategies), acquire results (accept/refuse, same limits, errors, RequestIDTooOld, stale/zero/negative request times), meter readings; distinct = distinct canonical case; non-trivial = the remote limiter is handed to requests at some step")
+		if c.Replay != "" {
+			var cs Case
+			if err := c.LoadReplay(&cs); err != nil {
+				fmt.Fprintln(os.Stderr, err)
+				os.Exit(2)
+			}
+			c.Case(rig.Canon(cs), true, "replay", func() interface{} { return cs })
+			c.Trace()
+			f, _ := evaluate(c, cs, func(int) int { return 0 })
+			if f != nil {
+				report(c, cs, f)
+			}
+			return
+		}
+		// corpus of past failures first
+		files, _ := filepath.Glob(filepath.Join(os.Getenv("VERIF_DIR"), "harness", "corpus", "C09", "*.json"))
+		sort.Strings(files)
+		for _, fn := range files {
+			b, _ := os.ReadFile(fn)
+			var env struct{ Case *Case }
+			if json.Unmarshal(b, &env) != nil || env.Case == nil {
+				c.Note("corpus file %s does not decode", filepath.Base(fn))
+				continue
+			}
+			c.Case(rig.Canon(*env.Case), true, "corpus", nil)
+			c.Trace()
+			if f, _ := evaluate(c, *env.Case, func(int) int { return 0 }); f != nil {
+				f.what = "corpus " + filepath.Base(fn) + ": " + f.what
+				report(c, *env.Case, f)
+			}
+		}
+		n := c.Budget(2500, 60000)
+		t0 := time.Now()
+		for i := 0; i < n && c.NFailures() < 5; i++ {
+			cs := genCase(c, i)
+			f, res := evaluate(c, cs, c.Rng.Intn)
+			account(c, cs, res)
+			c.Trace()
+			if f != nil {
+				small, g := shrink(c, cs, f)
+				report(c, small, g)
+			}
+			if c.Thorough() && time.Since(t0) > 14*time.Minute {
+				c.Note("thorough budget cut at %d of %d cases after %v", i+1, n, time.Since(t0).Round(time.Second))
+				break
+			}
+		}
+	})
+}
+
+func account(c *rig.Ctx, cs Case, res runResult) {
+	remoteHanded, outage, recovered := false, false, false
+	for i, o := range res.Obs {
+		if o.Choice == "remote" {
+			remoteHanded = true
+		}
+		if o.Unavail {
+			outage = true
+		}
+		if outage && !o.Unavail && i > 0 && res.Obs[i-1].Unavail {
+			recovered = true
+		}
+		c.Count("choice:" + o.Choice)
+		if o.RLim != nil {
+			c.Count(fmt.Sprintf("remote:%s:wrapper%d", o.RLim.Kind, o.WKind))
+		}
+		if res.Extra[i].Probe >= 0 {
+			c.Count("probe:" + res.Extra[i].ProbeVia)
+		}
+	}
+	for _, op := range cs.Ops {
+		k := "op:" + op.Op
+		switch op.Op {
+		case "setlimit":
+			switch {
+			case op.Err == "":
+				k += fmt.Sprintf(":accept=%v", op.Accept)
+			case op.Err == "RequestIDTooOld":
+				k += ":tooOld"
+			default:
+				k += ":error"
+			}
+		case "hb":
+			k += fmt.Sprintf(":ok=%v", op.OK)
+		}
+		c.Count(k)
+	}
+	kind := "none"
+	strat := "-"
+	for _, op := range cs.Ops {
+		if op.Op == "schema" {
+			if op.Schema.MI != nil {
+				kind = "mi"
+			} else if op.Schema.TB != nil {
+				kind = "tb"
+			}
+			strat = op.Schema.Strategy
+			break
+		}
+	}
+	bucket := fmt.Sprintf("case:%s:%s:rl=%s", kind, strat, cs.Cfg.RateLimiter)
+	if outage {
+		c.Count("case:outage")
+	}
+	if recovered {
+		c.Count("case:recovered")
+	}
+	if res.Panic != "" {
+		c.Count("case:panic")
+	}
+	if cs.KindChange {
+		c.Count("case:kind-change(diff only)")
+	}
+	c.Case(rig.Canon(cs), remoteHanded, bucket, func() interface{} { return cs })
 }
